@@ -408,5 +408,55 @@ func stressC12(seed int64, d time.Duration) *StressReport {
 		}
 		rep.eval("overlapping-registrations", 1)
 	}
+	// a registration that waits for its backend (reflection delayed 300 ms) while a gRPC-web call
+	// for a method registered all along arrives: the call is served from the published state and
+	// does not wait for the writer
+	{
+		mux3, _ := larking.NewMux(larking.FilesOption(u.fx.Files), larking.TypesOption(u.fx.Types))
+		if err, p := u.fx.registerOneOn(mux3, "SvcA"); err != nil || p != nil {
+			rep.fail("C12/fixture", "register SvcA", fmt.Sprint(err, p), "", "")
+			return rep
+		}
+		slow := backends[3]
+		waited := 0
+		var detail string
+		const rounds = 3
+		for round := 0; round < rounds; round++ {
+			slow.mask.Store(2)
+			slow.delay.Store(int64(300 * time.Millisecond))
+			var regDone atomic.Bool
+			errc := make(chan error, 1)
+			go func() {
+				ctx, cancel := context.WithTimeout(context.Background(), 5*time.Second)
+				defer cancel()
+				err := mux3.RegisterConn(ctx, slow.cc)
+				regDone.Store(true)
+				errc <- err
+			}()
+			time.Sleep(60 * time.Millisecond)
+			inFlight := !regDone.Load()
+			t0 := time.Now()
+			req := httptest.NewRequest("POST", u.full(u.methods[0]), bytes.NewReader([]byte{0, 0, 0, 0, 0}))
+			req.Header.Set("Content-Type", "application/grpc-web+proto")
+			rec, pn := serveOn(mux3, req)
+			el := time.Since(t0)
+			if pn != nil || rec.Code != 200 {
+				rep.fail("C12/registered-method-failed-during-registration", "gRPC-web "+u.full(u.methods[0])+" while RegisterConn waits for its backend", fmt.Sprint(rec.Code, " ", pn), "200", "a request for an already registered method failed while a registration was in progress")
+			}
+			if inFlight && regDone.Load() && el > 150*time.Millisecond {
+				waited++
+				detail = fmt.Sprintf("the call took %v and returned only after the registration had finished", el.Round(time.Millisecond))
+			}
+			<-errc
+			slow.delay.Store(0)
+			ctx, cancel := context.WithTimeout(context.Background(), 5*time.Second)
+			mux3.DropConn(ctx, slow.cc)
+			cancel()
+			rep.eval("requests-while-a-registration-waits", 1)
+		}
+		if waited == rounds {
+			rep.fail("C12/request-waits-for-registration", "gRPC-web "+u.full(u.methods[0])+" (registered all along) sent 60 ms into a RegisterConn whose backend answers reflection after 300 ms; "+strconv.Itoa(rounds)+" rounds", detail+" (every round)", "served at once from the published state", "requests for registered methods make no progress while a registration is in progress: the writer's work is observable")
+		}
+	}
 	return rep
 }
